@@ -10,7 +10,21 @@ correspond: the implementation's matrix of A.N (basis vectors + a Gaussian-integ
 search: A.N(x) vs A.H(A(x)) on the real objects — exact on Gaussian integers where the arithmetic is
   exact, 1e-6 relative for FFT / NUFFT(toeplitz=False) / wavelet / convolution leaves, and for the
   Toeplitz NUFFT normal a relative l2 error of at most twice the C06 bound (6 % at the default
-  oversamp=1.25/width=4, 0.6 % at oversamp=2).
+  oversamp=1.25/width=4, 0.6 % at oversamp=2) AND of the order of that NUFFT's own interpolation accuracy:
+  `toeplitz_oracle` measures eps = max(|M - E|_F/|E|_F, |M^H M - E^H E|_F/|E^H E|_F) (M = matrix of the real
+  NUFFT with the operator's coord/oversamp/width, E = exact non-uniform DFT on the same coordinates) and demands
+  |A.N x - A.H A x| <= 40 * max(eps, 5e-6) * max(|A.H A x|, |E^H E|_F |x| / sqrt N)   (5e-6: toeplitz_psf works in
+  complex64).  Calibration on the unchanged tree (110 seeds, 36000 steps of the generator below, plus 6500 cases of a
+  21-kernel x 8-kinds-of-x grid): the ratio err / (max(eps, 5e-6) * scale) never exceeded 3.2, so the factor 40 leaves
+  a margin > 10x.
+  The Toeplitz cases are *histories*: several live NUFFT objects (same coordinate values - the same array object,
+  an equal copy, another memory layout / dtype - with different batch shapes, kernels, grids, toeplitz flags, or other
+  coordinate values of the same shape) used interleaved, each A.N re-used after other operators were built, the
+  coordinate array of a dead operator re-used after an in-place change; x in complex128 / complex64 / float64 /
+  float32 / int64, C / Fortran / strided / negative-stride layouts, magnitudes 1e-30 .. 1e30, random / one-hot /
+  constant / one-batch-entry-only; coordinates uniform / on the FOV edge / on grid points / clustered, float64 /
+  float32 / integer dtype, C / Fortran / strided, 1-D or 2-D point index.  The generic A.N oracle also draws x in these
+  dtypes and layouts (`xvar`).
 """
 import json
 import warnings
@@ -146,7 +160,14 @@ def correspond(ctx):
                      "block that spans the axis is the one non-tiling case); BlocksToArray.N = Identity iff B <= S or a "
                      "single block (b2a_normal_identity_iff, cover_le_one_iff)")
     ctx.assumptions.append("FFT/IFFT normal = Identity is C05's unitarity theorem; the Toeplitz NUFFT normal's accuracy is "
-                           "inherited from C06 (search oracle with the stated tolerance only)")
+                           "inherited from C06 (search oracle only: twice the C06 bound and 40 x the NUFFT's own accuracy "
+                           "measured against the exact non-uniform DFT on the same coordinates, floor 5e-6 for the complex64 psf)")
+    ctx.rule += ("; search oracle, Toeplitz NUFFT: case = history of 1-4 live NUFFT operators (grid 1-3 D, 0-2 leading batch "
+                 "axes, 18 oversamp/width kernels, coordinates uniform / FOV edge / grid points / clustered in float64 / "
+                 "float32 / integer dtype and C / F / strided / negative-stride layout; later operators re-use the "
+                 "coordinates of an earlier one - same array object, equal copy, other layout, rescaled in place - with "
+                 "another batch shape / kernel / grid / toeplitz flag) + a sequence of steps (operator index, x values, "
+                 "dtype, layout, magnitude); distinct = distinct (operators, steps) JSON")
 
 
 def blocks_key(spec):
@@ -176,10 +197,43 @@ def toeplitz_tol(p):
     return None  # other settings: the statement gives no number; only finiteness / shape are checked
 
 
-def normal_oracle(ctx, spec, x=None, origin="search"):
+XVARS = ["real", "f32", "c64", "int", "F", "view", "neg"]
+
+
+def apply_xvar(x, var):
+    """a fresh array with the values of the complex128 C-ordered x in another dtype / memory layout (the property
+    quantifies over all x: real-dtype arrays for complex operators, single precision, integer data, Fortran-ordered,
+    strided and negative-stride views)"""
+    x = np.array(x, dtype=np.complex128)
+    if var in (None, "C"):
+        return x
+    if var == "real":
+        return x.real.copy()
+    if var == "f32":
+        return x.real.astype(np.float32)
+    if var == "c64":
+        return x.astype(np.complex64)
+    if var == "int":
+        return np.rint(x.real).astype(np.int64)
+    if var == "F":
+        return np.asfortranarray(x)
+    if x.ndim == 0:
+        return x
+    if var == "view":
+        big = np.zeros(x.shape[:-1] + (2 * x.shape[-1] + 1,), dtype=x.dtype)
+        big[..., 1::2] = x
+        return big[..., 1::2]
+    if var == "neg":
+        return np.ascontiguousarray(x[..., ::-1])[..., ::-1]
+    raise ValueError(var)
+
+
+def normal_oracle(ctx, spec, x=None, origin="search", xvar=None):
     """A.N(x) == A.H(A(x)).  Returns True when the property holds."""
     exact = B.is_exact(spec)
     case = dict(spec=spec)
+    if xvar:
+        case["xvar"] = xvar
     with warnings.catch_warnings():
         warnings.simplefilter("ignore")
         try:
@@ -198,13 +252,15 @@ def normal_oracle(ctx, spec, x=None, origin="search"):
                      observed=dict(oshape=B.oshp(AN), ishape=B.ishp(AN)), expected=B.ishp(A), origin=origin)
             return False
         x = B.gvec(ctx.rng, A.ishape) if x is None else np.asarray(x)
+        if xvar in ("real", "f32", "int"):
+            x = x.real + 0j
         case["x"] = [[float(v.real), float(v.imag)] for v in np.asarray(x, dtype=np.complex128).reshape(-1)]
         try:
-            want = np.asarray(AH(np.asarray(A(x.copy()))))
+            want = np.asarray(AH(np.asarray(A(apply_xvar(x, xvar)))))
         except Exception:
             return True
         try:
-            got = np.asarray(AN(x.copy()))
+            got = np.asarray(AN(apply_xvar(x, xvar)))
         except Exception as e:
             ctx.fail(nkey(spec, "apply"), "A.N raises although A.H(A(x)) works", case, observed=repr(e.__cause__ or e),
                      expected="A.H(A(x))", origin=origin)
@@ -214,8 +270,15 @@ def normal_oracle(ctx, spec, x=None, origin="search"):
                  origin=origin)
         return False
     toep = [lf[2] for lf in B.leaves(spec) if lf[1] == "nufft" and lf[2].get("toeplitz")]
+    got, want = np.asarray(got, dtype=np.complex128), np.asarray(want, dtype=np.complex128)
+    if not np.all(np.isfinite(want)):
+        # A.H(A(x)) itself is not a number (e.g. NUFFT([4], oversamp=1.25, width=2) on float32 data: the apodisation
+        # takes the root of a rounding-negative number) - nothing to compare A.N with; not this property's defect
+        ctx.count("oracle:not-compared:reference-not-finite")
+        return True
     err = float(np.linalg.norm(got - want))
     ref = float(np.linalg.norm(want))
+    single = xvar in ("f32", "c64")      # single-precision data: floating-point accuracy is that of float32
     if toep:
         tol = toeplitz_tol(toep[0])
         if tol is None:
@@ -224,11 +287,12 @@ def normal_oracle(ctx, spec, x=None, origin="search"):
             ok = err <= tol * ref + 1e-9
         expect = "relative l2 error <= %s (twice the C06 bound)" % tol
     elif exact:
-        ok = bool(np.array_equal(got, want))
-        expect = "exactly equal"
+        ok = bool(np.array_equal(got, want)) or (single and err <= 1e-5 * ref)
+        expect = "exactly equal" if not single else "equal within 1e-5 (float32 data)"
     else:
-        ok = err <= 1e-6 * max(ref, 1e-30) + 1e-12
-        expect = "relative l2 error <= 1e-6"
+        rt = 1e-4 if single else 1e-6
+        ok = err <= rt * max(ref, 1e-30) + 1e-12
+        expect = "relative l2 error <= %g" % rt
     if not ok:
         ctx.fail(nkey(spec, "toeplitz" if toep else "value"), "A.N(x) != A.H(A(x))", case,
                  observed=dict(AN=got.reshape(-1).tolist()[:30], rel_err=err / max(ref, 1e-30)),
@@ -236,7 +300,7 @@ def normal_oracle(ctx, spec, x=None, origin="search"):
     return ok
 
 
-def cover_oracle(ctx, sh, blk, st, x=None, origin="search"):
+def cover_oracle(ctx, sh, blk, st, x=None, origin="search", xvar=None):
     """ArrayToBlocks: A.H(A(x)) == A.N(x) == cover * x with cover = product over the block axes of the number of
     (block, offset) pairs landing on the index;  BlocksToArray (1-D): A.N = Identity iff B <= S or a single block."""
     from sigpy import linop as lo
@@ -248,11 +312,15 @@ def cover_oracle(ctx, sh, blk, st, x=None, origin="search"):
     except Exception:
         return True
     x = B.gvec(ctx.rng, sh) if x is None else np.asarray(x).reshape(sh)
+    if xvar:
+        case["xvar"] = xvar
+        if xvar in ("real", "f32", "int"):
+            x = x.real + 0j
     case["x"] = [[float(v.real), float(v.imag)] for v in np.asarray(x, dtype=np.complex128).reshape(-1)]
     cov = cover_array(sh, blk, st, [brute_cover(n, b, s) for n, b, s in zip(sh[len(sh) - d:], blk, st)])
-    want = cov * x
+    want = cov * x      # small integers: exact in every dtype of `xvar`
     ok = True
-    for name, f in (("A.H(A(x))", lambda: A.H(A(x.copy()))), ("A.N(x)", lambda: A.N(x.copy()))):
+    for name, f in (("A.H(A(x))", lambda: A.H(A(apply_xvar(x, xvar)))), ("A.N(x)", lambda: A.N(apply_xvar(x, xvar)))):
         try:
             got = np.asarray(f())
         except Exception as e:
@@ -289,6 +357,286 @@ def gen_toeplitz(rng):
     return ["leaf", "nufft", dict(sh=g, pts=[npts], coord=coord, oversamp=ov, width=w, toeplitz=True)]
 
 
+# ---- Toeplitz NUFFT normal operator: histories of live operators, measured interpolation accuracy ------------------
+TOEP_K = 40.0        # err <= TOEP_K * max(eps, TOEP_FLOOR) * scale; calibrated: ratio <= 3.2 over 36000 steps (110 seeds)
+TOEP_FLOOR = 5e-6    # toeplitz_psf is computed in complex64 (observed floor of the Toeplitz error: <= 8e-6 * scale)
+KERNELS = [(1.25, 4), (2, 4), (2, 6), (2, 8), (2, 7), (1.5, 6), (1.25, 6), (3, 5), (1.5, 3), (1.5, 4), (1.75, 5),
+           (2, 5.5), (1.25, 8), (2.5, 6), (2, 3), (1.25, 3), (1.5, 8), (2.0, 6.0)]
+SHARP = [(2, 6), (2, 8), (2, 7), (1.5, 6), (3, 5), (1.5, 8), (2.5, 6), (2, 5.5), (2.0, 6.0), (1.25, 8)]
+MARGINS = []         # (err / (tol * scale), oversamp, width) of every compared step - diagnostics / evidence
+
+
+def gen_coord(rng, g, npts, kind):
+    """k-space coordinates inside [-n/2, n/2] (the documented domain of NUFFT): uniform, with entries on the FOV edge,
+    on grid points (representable in integer dtypes), or clustered around one point"""
+    if kind == "edge":
+        return [[rng.choice([-n / 2, n / 2, rng.uniform(-n / 2, n / 2)]) for n in g] for _ in range(npts)]
+    if kind == "int":
+        return [[float(rng.randint(-(n // 2), (n - 1) // 2)) for n in g] for _ in range(npts)]
+    if kind == "cluster":
+        c0 = [rng.uniform(-n / 2, n / 2) for n in g]
+        return [[min(n / 2, max(-n / 2, c + rng.uniform(-0.3, 0.3))) for c, n in zip(c0, g)] for _ in range(npts)]
+    return [[rng.uniform(-n / 2, n / 2) for n in g] for _ in range(npts)]
+
+
+def make_coord(p):
+    """the coordinate array of an operator description: values `coord` reshaped to pts + [ndim], dtype `cdtype`,
+    memory layout `clayout` (C, F, strided view of a wider array, negative strides)"""
+    nd = len(p["coord"][0])
+    a = np.array(p["coord"], dtype=np.float64).reshape(list(p["pts"]) + [nd])
+    dt = p.get("cdtype", "float64")
+    a = np.rint(a).astype(dt) if dt.startswith("int") else a.astype(dt)
+    lay = p.get("clayout", "C")
+    if lay == "F":
+        a = np.asfortranarray(a)
+    elif lay == "view":
+        big = np.zeros((2 * a.shape[0] + 1,) + a.shape[1:-1] + (2 * nd + 1,), dtype=a.dtype)
+        big[1::2, ..., 1::2] = a
+        a = big[1::2, ..., 1::2]
+    elif lay == "neg":
+        a = np.ascontiguousarray(a[::-1])[::-1]
+    return a
+
+
+def ndft_matrix(g, coord):
+    """exact non-uniform DFT of sigpy's convention: E[m, r] = exp(-2 pi i sum_d k_m[d] (r_d - n_d // 2) / n_d) / sqrt(N)"""
+    coord = np.asarray(coord, dtype=np.float64).reshape(-1, len(g))
+    grids = np.meshgrid(*[np.arange(n) - n // 2 for n in g], indexing="ij")
+    ph = np.zeros((coord.shape[0],) + tuple(g))
+    for d, (gr, n) in enumerate(zip(grids, g)):
+        ph += coord[:, d].reshape((-1,) + (1,) * len(g)) * gr / n
+    return (np.exp(-2j * np.pi * ph) / np.sqrt(float(B.prod(g)))).reshape(coord.shape[0], -1)
+
+
+def nufft_accuracy(p, coord):
+    """(eps, |E^H E|_F): the interpolation accuracy of the real NUFFT with this operator's coord array / oversamp / width,
+    measured on all basis vectors against the exact non-uniform DFT (forward and Gram matrix, relative Frobenius)"""
+    from sigpy import linop as lo
+    nd = coord.shape[-1]
+    g = list(p["sh"])[len(p["sh"]) - nd:]
+    N = B.prod(g)
+    E = ndft_matrix(g, coord)
+    G = E.conj().T @ E
+    gf = float(np.linalg.norm(G))
+    try:
+        Y = lo.NUFFT([N] + g, coord, oversamp=p["oversamp"], width=p["width"])
+        M = np.asarray(Y(np.eye(N, dtype=np.complex128).reshape([N] + g)), dtype=np.complex128).reshape(N, -1).T
+        eps = max(float(np.linalg.norm(M - E)) / float(np.linalg.norm(E)), float(np.linalg.norm(M.conj().T @ M - G)) / gf)
+        if not np.isfinite(eps):
+            eps = None
+    except Exception:
+        eps = None
+    return eps, gf
+
+
+def toep_key(case, what):
+    return "C04:NUFFT.N:%s%s" % (what, "-history" if len(case["ops"]) > 1 else "")
+
+
+def toeplitz_oracle(ctx, case, origin="search"):
+    """Runs the history `case` = dict(ops=[operator descriptions], steps=[dict(op=i, x=..., xvar=...)]): operators are
+    built when first used (coordinate array: own values, the same array object as an earlier operator (`share`), or the
+    array object of a dead earlier operator after an in-place scaling (`inplace`)), and every step demands
+    A.N(x) = A.H(A(x)) - exactly the same computation for toeplitz=False, within the measured interpolation accuracy
+    of that NUFFT for toeplitz=True.  Returns True when the property holds on every step."""
+    from sigpy import linop as lo
+    ops, arrs, ops_built, yard = case["ops"], {}, {}, {}
+    with warnings.catch_warnings():
+        warnings.simplefilter("ignore")
+        for k, st in enumerate(case["steps"]):
+            i = st["op"]
+            p = ops[i]
+            info = dict(case, failed_step=k)
+            if i not in ops_built:
+                try:
+                    if p.get("share") is not None:
+                        c = arrs[p["share"]]
+                    elif p.get("inplace") is not None:
+                        c = arrs[p["inplace"][0]]
+                        c *= p["inplace"][1]
+                    else:
+                        c = make_coord(p)
+                    arrs[i] = c
+                    A = lo.NUFFT(p["sh"], c, oversamp=p["oversamp"], width=p["width"], toeplitz=bool(p["toeplitz"]))
+                    AH = A.H
+                except Exception:
+                    ctx.count("oracle:toeplitz:not-constructible")
+                    return True     # construction / adjoint problems are C01's / C03's
+                ops_built[i] = (A, AH)
+            A, AH = ops_built[i]
+            c = arrs[i]
+            x = np.array([complex(a, b) for a, b in st["x"]], dtype=np.complex128).reshape(p["sh"])
+            xvar = st.get("xvar")
+            try:
+                want = np.asarray(AH(np.asarray(A(apply_xvar(x, xvar)))))
+            except Exception:
+                ctx.count("oracle:toeplitz:forward-raises:%s/%s" % (p.get("cdtype", "float64"), xvar))
+                continue            # A / A.H do not accept this input: not this property's business
+            try:
+                AN = A.N
+            except Exception as e:
+                ctx.fail(toep_key(case, "build"), "A.N cannot be constructed (step %d, operator %d)" % (k, i), info,
+                         observed=repr(e.__cause__ or e), expected="normal operator", origin=origin)
+                return False
+            if B.oshp(AN) != B.ishp(A) or B.ishp(AN) != B.ishp(A):
+                ctx.fail(toep_key(case, "shape"), "A.N is not ishape x ishape (step %d, operator %d)" % (k, i), info,
+                         observed=dict(oshape=B.oshp(AN), ishape=B.ishp(AN)), expected=B.ishp(A), origin=origin)
+                return False
+            try:
+                got = np.asarray(AN(apply_xvar(x, xvar)))
+            except Exception as e:
+                ctx.fail(toep_key(case, "apply"), "A.N raises although A.H(A(x)) works (step %d, operator %d)" % (k, i), info,
+                         observed=repr(e.__cause__ or e), expected="A.H(A(x))", origin=origin)
+                return False
+            if got.shape != want.shape:
+                ctx.fail(toep_key(case, "shape"), "A.N(x) has the wrong shape (step %d, operator %d)" % (k, i), info,
+                         observed=list(got.shape), expected=list(want.shape), origin=origin)
+                return False
+            amp = float(np.max(np.abs(x))) if x.size else 0.0
+            if not amp > 0 or not np.all(np.isfinite(np.asarray(want, dtype=np.complex128))):
+                ctx.count("oracle:toeplitz:not-compared")
+                continue
+            w = np.asarray(want, dtype=np.complex128) / amp
+            t = np.asarray(got, dtype=np.complex128) / amp
+            if i not in yard:
+                yard[i] = nufft_accuracy(p, c)
+            eps, gf = yard[i]
+            nd = c.shape[-1]
+            N = B.prod(list(p["sh"])[len(p["sh"]) - nd:])
+            scale = max(float(np.linalg.norm(w)), gf * float(np.linalg.norm(x / amp)) / np.sqrt(N))
+            err = float(np.linalg.norm(t - w))
+            if not p["toeplitz"]:
+                tol, why = (1e-5 if xvar in ("f32", "c64") else 1e-9), "toeplitz=False: A.N is A.H * A"
+            else:
+                legacy = toeplitz_tol(p)
+                tol = legacy if legacy is not None else 1.0
+                why = "twice the C06 bound %s" % legacy
+                if eps is not None and TOEP_K * max(eps, TOEP_FLOOR) < tol:
+                    tol = TOEP_K * max(eps, TOEP_FLOOR)
+                    why = "%g x max(measured NUFFT accuracy %.3g, %g)" % (TOEP_K, eps, TOEP_FLOOR)
+                if tol >= 0.5:
+                    ctx.count("oracle:toeplitz:kernel-too-coarse-to-compare")
+            ok = bool(np.all(np.isfinite(t))) and (err <= tol * scale or tol >= 0.5)
+            MARGINS.append((err / (tol * scale) if scale > 0 else 0.0, p["oversamp"], p["width"], why.split(" ")[0]))
+            if not ok:
+                what = "toeplitz" if p["toeplitz"] else "value"
+                ctx.fail(toep_key(case, what), "A.N(x) != A.H(A(x)) (step %d, operator %d of the history)" % (k, i), info,
+                         observed=dict(AN=got.reshape(-1).tolist()[:24], err_over_scale=err / scale if scale > 0 else None,
+                                       nufft_accuracy=eps),
+                         expected=dict(AHA=want.reshape(-1).tolist()[:24], tolerance="|A.N x - A.H A x| <= %.3g * max(|A.H A x|, "
+                                       "|E^H E|_F |x| / sqrt N)  (%s)" % (tol, why)), origin=origin)
+                return False
+    return True
+
+
+def gen_x(rng, sh, nd):
+    """values (complex128 holder) and dtype/layout variant of one input: random Gaussian, one-hot, constant, or non-zero
+    in a single batch entry only; magnitudes 1e-30 .. 1e30 (1e-12 .. 1e12 where sigpy computes in single precision: at
+    1e-30 the float32 gridding of A.H underflows, which is no statement about A.N); real-dtype variants get real values"""
+    n = B.prod(sh)
+    kind = rng.choice(["rand"] * 5 + ["delta", "const", "onebatch", "onebatch"])
+    xvar = rng.choice([None] * 6 + ["real", "f32", "c64", "c64", "int", "F", "view", "neg"])
+    v = [complex(rng.gauss(0, 1), rng.gauss(0, 1)) for _ in range(n)]
+    if kind == "delta":
+        j = rng.randrange(n)
+        v = [complex(1, 0) if q == j else 0j for q in range(n)]
+    elif kind == "const":
+        v = [complex(1, 0)] * n
+    elif kind == "onebatch" and len(sh) > nd:
+        per = B.prod(sh[len(sh) - nd:])
+        b = rng.randrange(n // per)
+        v = [z if q // per == b else 0j for q, z in enumerate(v)]
+    if xvar in ("real", "f32", "int"):
+        v = [complex(z.real, 0) for z in v]
+    if xvar == "int":
+        v = [complex(round(3 * z.real), 0) for z in v]
+    else:
+        # sigpy's fft turns every non-complex input into complex64, so only complex128 data is processed in double
+        single = xvar in ("real", "f32", "c64")
+        mag = rng.choice([1.0] * 6 + ([1e-12, 1e12] if single else [1e-30, 1e30, 1e-12, 1e12]))
+        v = [z * mag for z in v]
+    return dict(x=[[z.real, z.imag] for z in v], xvar=xvar, xkind=kind)
+
+
+def gen_nufft_op(rng, quick=True, sharp=False):
+    d = rng.choice([1, 2, 2, 2, 3])
+    g = [rng.randint(2, (10 if quick else 16) if d < 3 else 6) for _ in range(d)]
+    lead = rng.choice([[], [2], [3], [3], [2, 2], [1], [4], [1, 3]])
+    pts = [rng.randint(1, 40)] if rng.random() < 0.8 else [rng.randint(1, 5), rng.randint(1, 6)]
+    ckind = rng.choice(["unif", "unif", "unif", "edge", "int", "cluster"])
+    coord = gen_coord(rng, g, B.prod(pts), ckind)
+    ov, w = rng.choice(SHARP if sharp else KERNELS + [(1.25, 4)] * 3 + [(2, 4)])
+    cdtype = rng.choice(["float64"] * 5 + ["float32", "float32"] + (["int64", "int32"] if ckind == "int" else []))
+    return dict(sh=lead + g, pts=pts, coord=coord, ckind=ckind, cdtype=cdtype, clayout=rng.choice(["C", "C", "C", "F", "view", "neg"]),
+                oversamp=ov, width=w, toeplitz=True)
+
+
+def gen_toeplitz_single(rng, quick=True):
+    p = gen_nufft_op(rng, quick, sharp=rng.random() < 0.5)
+    nd = len(p["coord"][0])
+    steps = [dict(op=0, **gen_x(rng, p["sh"], nd))]
+    if rng.random() < 0.3:      # the cached A.N of the same object, used again
+        steps.append(dict(op=0, **gen_x(rng, p["sh"], nd)))
+    return dict(oracle="toeplitz", ops=[p], steps=steps)
+
+
+def gen_toeplitz_history(rng, quick=True):
+    """2-4 operators derived from one (grid, coordinates, kernel): another batch shape (always at least once), kernel,
+    toeplitz flag, grid, memory layout of the coordinates, other coordinate values of the same shape, or the array
+    object of an operator that is not used any more after an in-place rescaling; then steps that visit every operator
+    in creation order and come back to operators that are still alive"""
+    base = gen_nufft_op(rng, quick, sharp=rng.random() < 0.4)
+    nd = len(base["coord"][0])
+    ops, obj, kill = [base], [0], {}
+    for j in range(1, rng.randint(2, 4)):
+        alive = [q for q in range(len(ops)) if q not in kill]
+        src = rng.choice(alive)
+        p = json.loads(json.dumps(ops[src]))
+        p.pop("share", None)
+        p.pop("inplace", None)
+        g = p["sh"][len(p["sh"]) - nd:]
+        lead = p["sh"][:len(p["sh"]) - nd]
+        change = "batch" if j == 1 else rng.choice(["batch", "batch", "kernel", "flag", "grid", "values", "inplace"])
+        if change == "inplace" and sum(1 for q in alive if obj[q] == obj[src]) != 1:
+            change = "batch"    # the array is still used by another live operator
+        p["change"] = change
+        mine = len(ops)
+        if change == "batch":
+            p["sh"] = rng.choice([q for q in ([], [2], [3], [2, 2], [1], [4], [2, 3], [5]) if q != lead]) + g
+        elif change == "kernel":
+            p["oversamp"], p["width"] = rng.choice([kw for kw in KERNELS if list(kw) != [p["oversamp"], p["width"]]])
+        elif change == "flag":
+            p["toeplitz"] = not p["toeplitz"]
+        elif change == "grid":      # a larger grid: the same coordinates stay inside [-n/2, n/2]
+            p["sh"] = lead + [n + rng.randint(0, 2) for n in g]
+        elif change == "values":
+            p["coord"] = gen_coord(rng, g, B.prod(p["pts"]), p["ckind"])
+        elif change == "inplace":
+            f = -1.0 if p["cdtype"].startswith("int") else rng.choice([0.5, 0.75, -1.0])
+            p["inplace"] = [src, f]
+            p["coord"] = [[v * f for v in row] for row in p["coord"]]
+            kill[src] = len(ops)
+            mine = obj[src]
+        if change not in ("values", "inplace"):
+            r = rng.random()
+            if r < 0.4:
+                p["share"] = src                                          # the same array object
+                mine = obj[src]
+            elif r < 0.6:
+                p["clayout"] = rng.choice(["C", "F", "view", "neg"])      # equal values, other memory layout
+        ops.append(p)
+        obj.append(mine)
+    steps = []
+    for i in range(len(ops)):
+        steps.append(i)
+        if rng.random() < 0.5:
+            steps.append(rng.choice([q for q in range(i + 1) if kill.get(q, len(ops)) > i]))
+    alive = [q for q in range(len(ops)) if q not in kill]
+    for _ in range(rng.randint(0, 2)):
+        steps.append(rng.choice(alive))
+    return dict(oracle="toeplitz", ops=ops, steps=[dict(op=i, **gen_x(rng, ops[i]["sh"], nd)) for i in steps])
+
+
 def exhaustive_blocks():
     for n in range(1, 8):
         for b in range(1, n + 1):
@@ -314,50 +662,104 @@ def search(ctx, budget):
     for sh, blk, st in block_layouts(rng, budget <= 1):
         ctx.case(("cover-oracle", json.dumps([sh, blk, st])))
         ctx.count("oracle:cover:%dd" % len(blk))
-        cover_oracle(ctx, sh, blk, st)
+        xv = rng.choice(XVARS) if rng.random() < 0.3 else None
+        ctx.count("oracle:cover:x:%s" % (xv or "complex128-C"))
+        cover_oracle(ctx, sh, blk, st, xvar=xv)
     blocks = list(exhaustive_blocks())
     for spec in (blocks if budget > 1 else rng.sample(blocks, 40)):
         ctx.case(("oracle", json.dumps(spec)))
         ctx.count("oracle:blocks-1d")
         normal_oracle(ctx, spec)
+    def pick_xvar():
+        xv = rng.choice(XVARS) if rng.random() < 0.35 else None
+        ctx.count("oracle:x:%s" % (xv or "complex128-C"))
+        return xv
     for spec, _ in B.class_sweep(rng, max(2, int(3 * budget))):
         ctx.case(("oracle", json.dumps(spec)))
         ctx.count("oracle:class:" + spec[1])
         normal_oracle(ctx, spec)
+        xv = rng.choice(XVARS)
+        ctx.case(("oracle", json.dumps(spec), xv))
+        ctx.count("oracle:x:%s" % xv)
+        normal_oracle(ctx, spec, xvar=xv)
     for i in range(int(250 * budget)):
         spec, _ = B.gen_tree(rng, rng.choice([1, 2, 3, 4]), None, stack_neg=B.probes()["neg_stack"])
         if rng.random() < 0.3:
             spec = ["N", spec] if rng.random() < 0.3 else spec
-        ctx.case(("oracle", json.dumps(spec)))
+        xv = pick_xvar()
+        ctx.case(("oracle", json.dumps(spec), xv))
         ctx.count("oracle:tree")
-        normal_oracle(ctx, spec)
+        normal_oracle(ctx, spec, xvar=xv)
     for i in range(int(150 * budget)):
         spec, A = B.gen_opaque(rng)
         spec, A = B.wrap_opaque(rng, spec, A)
-        ctx.case(("oracle", json.dumps(spec)))
+        xv = pick_xvar()
+        ctx.case(("oracle", json.dumps(spec), xv))
         ctx.count("oracle:opaque:" + next(iter(B.leaves(spec)))[1])
-        normal_oracle(ctx, spec)
-    for i in range(int(25 * budget)):
+        normal_oracle(ctx, spec, xvar=xv)
+    for i in range(int(25 * budget)):       # a Toeplitz NUFFT inside a small tree (C06 bound only)
         spec = gen_toeplitz(rng)
+        if rng.random() < 0.4:
+            try:
+                spec, _ = B.wrap_opaque(rng, spec, B.build(spec))
+            except Exception:
+                pass
         ctx.case(("oracle", json.dumps(spec)))
-        ctx.count("oracle:nufft-toeplitz:%s/%s" % (spec[2]["oversamp"], spec[2]["width"]))
+        ctx.count("oracle:nufft-toeplitz-tree:%s/%s" % tuple(next(lf[2][k] for lf in B.leaves(spec) if lf[1] == "nufft")
+                                                              for k in ("oversamp", "width")))
         normal_oracle(ctx, spec)
+    # Toeplitz NUFFT normal operators: single operators first (smallest replay), then histories of live operators
+    quick = budget <= 1
+    for gen, n, tag in ((gen_toeplitz_single, int(120 * budget), "single"), (gen_toeplitz_history, int(60 * budget), "history")):
+        for i in range(n):
+            case = gen(rng, quick)
+            ctx.case(("toeplitz", json.dumps(case)))
+            for p_ in case["ops"]:
+                nb = len(p_["sh"]) - len(p_["coord"][0])
+                ctx.count("oracle:toeplitz-%s:kernel:%s/%s" % (tag, p_["oversamp"], p_["width"]))
+                ctx.count("oracle:toeplitz-%s:batch:%s" % (tag, "none" if nb == 0 else "size-1" if B.prod(p_["sh"][:nb]) == 1
+                                                            else "%d-axes" % nb))
+                ctx.count("oracle:toeplitz:coord:%s" % p_["ckind"])
+                ctx.count("oracle:toeplitz:coord-dtype:%s" % p_["cdtype"])
+                ctx.count("oracle:toeplitz:coord-layout:%s" % p_["clayout"])
+                if "change" in p_:
+                    ctx.count("oracle:toeplitz-history:change:%s%s" % (p_["change"], ":same-array" if p_.get("share") is not None else ""))
+            for st in case["steps"]:
+                ctx.count("oracle:toeplitz:x:%s" % st["xkind"])
+                ctx.count("oracle:toeplitz:x-dtype-layout:%s" % (st["xvar"] or "complex128-C"))
+            toeplitz_oracle(ctx, case)
+    if MARGINS:
+        m = max(MARGINS)
+        ctx.notes.append("Toeplitz NUFFT normal: %d steps compared, largest err / tolerance = %.3f (oversamp=%s, width=%s)"
+                         % (len(MARGINS), m[0], m[1], m[2]))
 
 
 def replay(path):
+    r = json.load(open(path))
+    if r.get("kind") == "failing-input" and r["case"].get("oracle") == "toeplitz":
+        print(json.dumps(r, indent=1)[:3000])
+        ctx = common.Ctx(PROPERTY, "quick", 0)
+        ok = toeplitz_oracle(ctx, r["case"], origin="replay")
+        for f in ctx.failures:
+            print("observed:", f["observed"], "expected:", f["expected"])
+        print("replay:", "property holds on this input" if ok else "property FAILS on this input")
+        return 0 if ok else 1
+
     def orc(ctx, c):
         x = None
+        if c.get("oracle") == "toeplitz":
+            return toeplitz_oracle(ctx, c, origin="replay")
         if c.get("oracle") == "cover":
             p = c["spec"][2]
             xx = None
             if "x" in c:
                 xx = np.array([complex(a, b) for a, b in c["x"]])
-            return cover_oracle(ctx, p["sh"], p["blk"], p["str"], x=xx, origin="replay")
+            return cover_oracle(ctx, p["sh"], p["blk"], p["str"], x=xx, origin="replay", xvar=c.get("xvar"))
         if "x" in c:
             try:
                 A = B.build(c["spec"])
                 x = np.array([complex(a, b) for a, b in c["x"]]).reshape(A.ishape)
             except Exception:
                 x = None
-        return normal_oracle(ctx, c["spec"], x=x, origin="replay")
+        return normal_oracle(ctx, c["spec"], x=x, origin="replay", xvar=c.get("xvar"))
     return B.replay(path, oracle=orc)
